@@ -10,7 +10,9 @@
              (steps (KIND token...) ...))
       replays the implementation's trace of generator / cache calls on the model:
       m = o (conforming payload) | b (payload of the wrong shape) | f (exception); c = the driver's script letter
-      KIND = len | type (query on a root VirtualArray) | op | event
+      KIND = len | type (query on a root VirtualArray: length_q / form_q of the model; `type` stands for every
+             question answered by form(true): type, depths, fields) | peek (taking a field / fields / a lazy slice of
+             a root VirtualArray: SPeek of the model -- it may look into the cache, it never calls array()) | op | event
       -> (id ok (step ok|err (n c0 c1 ...) agree|(mismatch POS WHAT)) ...)                              *)
 open C18model
 open Sx
@@ -144,6 +146,7 @@ let run_virt (cs : Sx.t) : string =
           (* one array() call for key k starting at token !i (a g or, without cache, a G token) *)
           let array_call () =
             let p0 = !i in
+            if kind = "peek" then raise (Mismatch (p0, "a lazy derivation (SPeek in the model) called array()"));
             let t0 = tok !i in
             let (k, rest) = key_of t0 in
             let kn = nat_of_int k in
